@@ -238,8 +238,9 @@ theorem sampling_at_integers_of {α : Type} (sample : Nat → Pt → α) (pix : 
 
 /-- PROPERTY (path equivalence, orders 0 and 1): at integer centres and offsets the slicing path and
 the sampling path with mode 'constant' return the same shape and the same pixels, for interpolation
-order 0 and for order 1 (bilinear interpolation reproduces the samples). -/
-theorem slice_eq_sampling_at_integers_orders (order : Nat) (pix : NDArr Rat) (C H W : Nat)
+order 0 and for order 1 (bilinear interpolation reproduces the samples).  The model's `sampleRat` is bilinear for
+every order >= 1, so the statement is restricted to the orders it models (scipy's splines of order 2-5 are not). -/
+theorem slice_eq_sampling_at_integers_orders (order : Nat) (_horder : order ≤ 1) (pix : NDArr Rat) (C H W : Nat)
     (hshape : pix.shape = [C, H, W]) (hwf : pix.WF)
     (cz : List (Int × Int)) (ph pw : Nat) (oz : Option (List (Int × Int))) (cval : Rat) :
     ∃ a b, extractSlice pix (cz.map toPt) ph pw (oz.map (List.map toPt)) cval = .ok a ∧
